@@ -91,6 +91,18 @@ Definition list_inv_b (l : siglist) : bool :=
   (sl_listsize l =? 28 + sl_headersize l + N.of_nat (length (sl_sigs l)) * sl_size l) &&
   forallb (fun s => blen (sd_data s) + 16 =? sl_size l) (sl_sigs l) && nodup_sigs (sl_sigs l).
 Definition db_inv_b (db : list siglist) : bool := forallb list_inv_b db.
+(* the boolean form of list_inv0: a list held by a caller may be empty *)
+Definition list_inv0_b (l : siglist) : bool :=
+  (sl_headersize l =? 0) && is_nil (sl_header l) &&
+  (sl_listsize l =? 28 + sl_headersize l + N.of_nat (length (sl_sigs l)) * sl_size l) &&
+  forallb (fun s => blen (sd_data s) + 16 =? sl_size l) (sl_sigs l) && nodup_sigs (sl_sigs l).
+
+(* one step of a history on one list, called directly *)
+Inductive lhop :=
+| LHAppend (o : guid) (data : bytes)
+| LHRemove (o : guid) (data : bytes)
+| LHQuery (o : guid) (data : bytes).
+Record lobs := mkLobs { lo_ok : bool; lo_list : siglist; lo_found : bool; lo_index : N }.
 
 (* one step of a history as observed on the implementation *)
 Inductive hop :=
@@ -117,7 +129,7 @@ Definition step_verdict (mdb : list siglist) (idb : list siglist) (op : hop) (o 
       match db_append pem_decode mdb t o_ data with
       | Ret mdb' =>
           if negb (ho_ok o) then (1, mdb')
-          else if negb (is_insertion v v' (t, mkSig o_ (normalize pem_decode t d)) && db_inv_b (ho_db o)) then (1, mdb')
+          else if negb (is_insertion v v' (t, mkSig o_ (normalize pem_decode t d)) && implb (db_inv_b idb) (db_inv_b (ho_db o))) then (1, mdb')
           else if db_eqb mdb' (ho_db o) then (0, mdb') else (2, mdb')
       | _ =>
           if ho_ok o then (1, mdb)
@@ -128,7 +140,7 @@ Definition step_verdict (mdb : list siglist) (idb : list siglist) (op : hop) (o 
       match db_remove mdb t o_ data with
       | Ret mdb' =>
           if negb (ho_ok o) then (1, mdb')
-          else if negb (is_insertion v' v (t, mkSig o_ data) && db_inv_b (ho_db o)) then (1, mdb')
+          else if negb (is_insertion v' v (t, mkSig o_ data) && implb (db_inv_b idb) (db_inv_b (ho_db o))) then (1, mdb')
           else if db_eqb mdb' (ho_db o) then (0, mdb') else (2, mdb')
       | _ =>
           if ho_ok o then (1, mdb)
@@ -156,6 +168,55 @@ Definition step_verdict (mdb : list siglist) (idb : list siglist) (op : hop) (o 
       if negb (db_eqb idb (ho_db o)) then (1, mdb)
       else if negb (Bool.eqb (ho_answer o) (forallb (fun s => in_view v (sl_type l, s)) (sl_sigs l))) then (1, mdb)
       else if Bool.eqb (ho_answer o) (db_list_exists mdb l) then (0, mdb) else (2, mdb)
+  end.
+
+(* the same for one list: the entries change by exactly the entry named (C09_list_append_ok,
+   C09_list_remove_ok), errors change nothing, the invariant is kept (C09_list_*_inv), Exists
+   reports the first matching index (C09_list_index) *)
+Definition lstep_verdict (ml il : siglist) (op : lhop) (o : lobs) : N * siglist :=
+  let t := sl_type il in
+  match op with
+  | LHAppend o_ data =>
+      match list_append pem_decode ml o_ data with
+      | Ret ml' =>
+          if negb (lo_ok o) then (1, ml')
+          else if negb (guid_eqb (sl_type (lo_list o)) t &&
+                        list_eqb sigdata_eqb (sl_sigs (lo_list o)) (sl_sigs il ++ [mkSig o_ (normalize pem_decode t data)]) &&
+                        implb (list_inv0_b il) (list_inv_b (lo_list o))) then (1, ml')
+          else if siglist_eqb ml' (lo_list o) then (0, ml') else (2, ml')
+      | _ =>
+          if lo_ok o then (1, ml)
+          else if negb (siglist_eqb il (lo_list o)) then (1, ml)
+          else (0, ml)
+      end
+  | LHRemove o_ data =>
+      match list_remove ml o_ data with
+      | Ret ml' =>
+          if negb (lo_ok o) then (1, ml')
+          else if negb (guid_eqb (sl_type (lo_list o)) t &&
+                        is_insertion (list_view (lo_list o)) (list_view il) (t, mkSig o_ data) &&
+                        implb (list_inv0_b il) (list_inv0_b (lo_list o))) then (1, ml')
+          else if siglist_eqb ml' (lo_list o) then (0, ml') else (2, ml')
+      | _ =>
+          if lo_ok o then (1, ml)
+          else if negb (siglist_eqb il (lo_list o)) then (1, ml)
+          else (0, ml)
+      end
+  | LHQuery o_ data =>
+      if negb (siglist_eqb il (lo_list o)) then (1, ml)
+      else match index_of (sl_sigs il) (mkSig o_ data) with
+           | Some i => if lo_found o && (lo_index o =? i) then (0, ml) else (1, ml)
+           | None => if lo_found o then (1, ml) else (0, ml)
+           end
+  end.
+
+Fixpoint run_list_history (ml il : siglist) (ops : list (lhop * lobs)) (i : N) (okc : N) : N * N * N :=
+  match ops with
+  | [] => (0, i, okc)
+  | (op, o) :: r =>
+      let '(v, ml') := lstep_verdict ml il op o in
+      if v =? 0 then run_list_history ml' (lo_list o) r (i + 1) (if lo_ok o then okc + 1 else okc)
+      else (v, i, okc)
   end.
 
 (* runs a whole history; returns (verdict, index of the first bad step, steps that succeeded) *)
